@@ -32,14 +32,17 @@ def concretise(cmd, rnd, extras=True, chain=None):
     for o in cmd['objs']:
         x = 12.0 * o['id']
         tg = ('%d,' % o['tag']) if o['tag'] else ''
+        # later wires have 7 or 3 segments: with two pulses of its own a wire is "fully loaded" after two attachments,
+        # also when both name the same pulse
+        ns = 7 if o['id'] == 1 else rnd.choice([7, 3])
         if o['kind'] == 'W' and chain:
             d = step[nw % 3]
             q = [pt[0] + d[0], pt[1] + d[1], pt[2] + d[2]]
-            argv += ['-w', '%s7,%g,%g,%g,%g,%g,%g,0.001' % ((tg,) + tuple(pt) + tuple(q))]
+            argv += ['-w', '%s%d,%g,%g,%g,%g,%g,%g,0.001' % ((tg, ns) + tuple(pt) + tuple(q))]
             pt = q
             nw += 1
         elif o['kind'] == 'W':
-            argv += ['-w', '%s7,%g,0,10,%g,3,13,0.001' % (tg, x, x + 4)]
+            argv += ['-w', '%s%d,%g,0,10,%g,3,13,0.001' % (tg, ns, x, x + 4)]
         elif o['kind'] == 'A':
             argv += ['-a', '%s7,%g,10,130,0.0012' % (tg, 1.5 + 0.25 * o['id'])]
         else:
